@@ -126,6 +126,30 @@ CLAIMED['C13'] = dict(
     design='5/C13',
     note='Trusted: Lean kernel; re module. The filter equation rests on evaluation. Known findings F10a, F10b, F10c.',
     technique='Lean 4 lemmas + differential correspondence; filter equation by evaluation over all existing paths')
+_DELTAMODEL = ('Model = Lean port of DeepDiff._to_delta_dict (payload from the diff tree, incl. opcodes with old/new slices), Delta.__add__ (the phases in the order '
+               'regenerated from the source each run, tuple coercion and post-processing, path sorting and its fallback comparator, closest-element search) and '
+               '_get_reverse_diff / __rsub__; tied to the code on every run by comparing the canonical payload, t1 + delta and t2 - delta outcomes (value, logged error, escaped '
+               'exception) of the real Delta with the compiled model over generated pairs. ')
+CLAIMED['C01'] = dict(
+    text='PARTIAL. Lean 4 theorems: opcode replay over any tiling reproduces the new item list (lists and tuples, any length), an empty payload is the identity in every phase '
+         'order, the delta of a well-formed value with its copy applies as the identity (every ordered configuration), a written location reads back the written value; Lean '
+         'witnesses for the two open findings (set / tuple edited inside a tuple). ' + _DELTAMODEL + 'The round trip itself (t1 + Delta(DeepDiff(t1,t2)) == t2 with container types, inputs '
+         'untouched) is decided on the implementation over generated pairs x zip x threshold x verbosity x view x always_include_values, chains of <= 6 edits, and '
+         'ignore_order+report_repetition on lists of distinct scalars; its Lean theorem for arbitrary pairs is not proved yet.',
+    design='5/C01',
+    note='Trusted: Lean kernel; difflib returns a tiling (checked on every observed opcode list). Round trip for arbitrary pairs rests on evaluation + model correspondence. '
+         'Fixed in /repo: F1, F2, F3, F4a (C01), F23. Known findings F4b, F4c.',
+    technique='Lean 4 lemmas (fold induction, tiling) + differential correspondence of payload and application; round trip by evaluation inside Dom_C01')
+CLAIMED['C08'] = dict(
+    text='PARTIAL. Lean 4 theorems: a non-bidirectional delta refuses subtraction; reversal is an involution on every ordered-mode payload and swaps the additive categories; a '
+         'values_changed/type_changes entry whose location holds a value != the recorded old value adds an error in any state, errors are never forgotten through any later '
+         'phase, hence (C08_detects) a corrupted base is never accepted silently by the values_changed phase. ' + _DELTAMODEL + 'Exact inversion (t2 - delta == t1, re-adding, '
+         '+,-,+ sequences <= 6) is decided on the implementation over generated pairs; every single-location corruption at a values_changed/type_changes path is applied with '
+         'raise_errors True and False and compared with the model.',
+    design='5/C08',
+    note='Trusted: Lean kernel; logging. Exact inversion for arbitrary pairs rests on evaluation + model correspondence (its Lean theorem is not proved yet). Fixed in /repo: F23 '
+         '(__rsub__ left the delta reversed after an exception). Known findings F4b, F4c.',
+    technique='Lean 4 proof (monotone error counter by induction over entries and phases) + differential correspondence incl. corrupted bases')
 NA = {}
 
 checks = []
